@@ -261,5 +261,71 @@ def strategy(tier):
     return cases()
 
 
+# ---- the two helpers on their own (no convention involved) ------------------------------------
+
+@st.composite
+def helper_cases(draw):
+    n_dims = draw(st.integers(1, 5))
+    names = draw(st.permutations(["time", "depth", "y", "x", "index", "n"]))[:n_dims]
+    sizes = [draw(st.integers(1, 4)) for _ in names]
+    k = draw(st.integers(1, n_dims))
+    flatten = list(draw(st.permutations(list(names)))[:k])
+    return {"dims": list(names), "sizes": sizes, "flatten": flatten,
+            "linear": draw(st.sampled_from([None, "cell", "index", "k"])),
+            "dtype": draw(st.sampled_from(["f8", "i4", "b1", "M8"]))}
+
+
+def check_helpers(case, ctx):
+    """utils.ravel_dimensions flattens the named dimensions *in the order given*, wherever they
+    sit; utils.wind_dimension with those names and sizes puts every value back."""
+    from vf.common import import_emsarray
+    import_emsarray()
+    from emsarray import utils
+    dims, sizes, flatten = case["dims"], case["sizes"], case["flatten"]
+    data = _coded_array(sizes, case["dtype"])
+    da = xarray.DataArray(data, dims=dims)
+    other = [d for d in dims if d not in flatten]
+    linear = case["linear"]
+    if linear is not None and linear in other:
+        ctx.at("C03.helpers")
+        try:
+            utils.ravel_dimensions(da, list(flatten), linear_dimension=linear)
+        except Exception:
+            ctx.label("collision:refused")
+            return
+        ctx.label("collision:accepted")
+        return
+    ctx.at("C03.helpers")
+    kwargs = {} if linear is None else {"linear_dimension": linear}
+    flat = utils.ravel_dimensions(da, list(flatten), **kwargs)
+    want_name = linear if linear is not None else expected_default_name(dims)
+    ctx.check(tuple(flat.dims) == tuple(other) + (want_name,), "C03.ravel_dims",
+              lambda: f"ravel_dimensions({dims}, {flatten}, {kwargs}) has dims {flat.dims}; expected "
+              f"{tuple(other) + (want_name,)}")
+    size_of = dict(zip(dims, sizes))
+    flat_sizes = [size_of[d] for d in flatten]
+    fv = flat.values
+    ctx.check(fv.dtype == data.dtype, "C03.ravel_dtype", lambda: f"dtype {data.dtype} -> {fv.dtype}")
+    for idx in itertools.product(*(range(s) for s in sizes)):
+        by = dict(zip(dims, idx))
+        lin = 0
+        for d in flatten:
+            lin = lin * size_of[d] + by[d]
+        pos = tuple(by[d] for d in other) + (lin,)
+        ctx.check(same_number(fv[pos], data[idx]), "C03.ravel_values",
+                  lambda: f"ravel_dimensions({dims} sizes {sizes}, {flatten}): element {pos} = "
+                  f"{fv[pos]!r}, the array holds {data[idx]!r} at {by}")
+    back = utils.wind_dimension(flat, dimensions=flatten, sizes=flat_sizes, linear_dimension=want_name)
+    want = da.transpose(*other, *flatten)
+    ctx.check(tuple(back.dims) == tuple(want.dims) and _arrays_identical(back.values, want.values)
+              and back.dtype == want.dtype, "C03.wind_inverse",
+              lambda: f"wind_dimension(ravel_dimensions(x)) is not x for dims {dims} sizes {sizes} "
+              f"flattening {flatten}")
+    ctx.nontrivial(len(flatten) >= 2 and dims[-len(flatten):] != flatten)
+
+
 MATCHERS = {}
-SUBS = [Sub("ravel_wind", strategy, check_case, quick=300, thorough=2000)]
+SUBS = [
+    Sub("ravel_wind", strategy, check_case, quick=300, thorough=2000),
+    Sub("helpers", lambda tier: helper_cases(), check_helpers, quick=300, thorough=3000),
+]
